@@ -1,7 +1,12 @@
 ------------------------------ MODULE KMeshRec ------------------------------
 (* code -> spec for C06: records of calls of the real Grid.get_K_list, KpointBZparallel.divide, exclude_equiv_points,
-   KpointBZtetra.divide, GridTetra / GridTrigonal (+ split_tetra_volume / split_tetra_size), one TLC state per record.
-   Every named clause of `Clauses` is evaluated on the recorded values; all numbers are the integers of KMesh.tla. *)
+   whole refinement steps (of run() and of the harness's copy of its loop), KpointBZtetra.divide, GridTetra /
+   GridTrigonal (+ split_tetra_volume / split_tetra_size), one TLC state per record.
+   Every named clause of `Clauses` is evaluated on the recorded values; all numbers are the integers of KMesh.tla.
+   The clauses that can raise a violation are the statements of the property and comparisons with the specification UP TO
+   THE SYMMETRY THE PROPERTY ALLOWS (order of a list, which member of an orbit / of a class of equivalent points is kept,
+   order of the vertices of a tetrahedron, tie-break between equally long edges).  Clauses named info_* compare with the
+   literal result of today's code; they are reported as information only. *)
 EXTENDS KMesh, Json, IOUtils, TLCExt
 VARIABLE i
 Recs == JsonDeserialize(IOEnv.TRACE_FILE).recs
@@ -19,52 +24,78 @@ TList(s)  == [q \in 1..Len(s) |-> TetOf(s[q])]
 GeoOf(r)  == [n |-> T3(r.n), nd |-> T3(r.nd), L |-> r.L]
 
 KlistClauses ==
-   LET n == T3(Rec.n)  G == GroupOf(Rec.grp)  kl == KList(Rec.out)  GE == IF Rec.sym THEN G ELSE {Id3} IN
-   [ accepted_iff_compatible |-> Rec.ok = Compatible(n, G),
-     equals_spec  |-> Rec.ok => kl = IrreducibleList(n, G, Rec.sym),
-     nonnegative  |-> Rec.ok => WeightsNonNegative(kl),
-     sum_to_one   |-> Rec.ok => WeightsSumToOne(kl, n),
-     partition    |-> Rec.ok => StarsPartition(kl, n, GE),
-     orbit_weight |-> Rec.ok => WeightIsOrbitSize(kl, n, GE),
-     covered_once |-> Rec.ok => CoveredOnce(kl, n, GE) ]
+   LET n == T3(Rec.n)  G == GroupOf(Rec.grp)  kl == KList(Rec.out)  GE == IF Rec.sym THEN G ELSE {Id3}
+       comp == Compatible(n, G)
+       A == Rec.ok /\ comp          \* the property speaks about the grids that the group maps to themselves
+   IN
+   [ compatible_accepted |-> comp => Rec.ok,
+     in_range     |-> A => \A q \in 1..Len(kl) : kl[q].k \in GridPts(n),
+     nonnegative  |-> A => WeightsNonNegative(kl),
+     sum_to_one   |-> A => WeightsSumToOne(kl, n),
+     partition    |-> A => StarsPartition(kl, n, GE),
+     orbit_weight |-> A => WeightIsOrbitSize(kl, n, GE),
+     covered_once |-> A => CoveredOnce(kl, n, GE),
+     same_up_to_symmetry |-> A => (SameOrbitWeights(kl, IrreducibleList(n, G, Rec.sym), n, GE) /\ NoOrbitTwice(kl, n, GE)),
+     info_incompatible_rejected |-> (~comp) => ~Rec.ok,
+     info_equals_spec  |-> A => kl = IrreducibleList(n, G, Rec.sym) ]
 DivideClauses ==
    LET geo == GeoOf(Rec)  G == GroupOf(Rec.grp)  GE == IF Rec.sym THEN G ELSE {Id3}
        k == FPoint(Rec.parent)  ch == FList(Rec.out) IN
    [ in_model     |-> Divisible(k, geo) /\ Compatible(FineU(geo), G),
-     equals_spec  |-> ch = Children(k, geo, G, Rec.sym),
      weight_kept  |-> TotalWeight(ch) = k.fac,
      nonnegative  |-> \A q \in 1..Len(ch) : ch[q].fac > 0,
      tile_parent  |-> (~Rec.sym) => ChildrenTileParent(k, ch, geo),
-     lossless     |-> MergeLossless(ChildrenRaw(k, geo), ch, geo, GE),
-     no_duplicates |-> Rec.sym => NoEquivDup(ch, geo, G) ]
+     same_up_to_symmetry |-> SameClassWeights(ch, ChildrenRaw(k, geo), geo, GE),
+     no_duplicates |-> Rec.sym => NoEquivDup(ch, geo, G),
+     info_equals_spec  |-> ch = Children(k, geo, G, Rec.sym) ]
 ExcludeClauses ==
-   LET geo == GeoOf(Rec)  G == GroupOf(Rec.grp)  a == FList(Rec.inp)  b == FList(Rec.out)  kb == Keys(b, geo, G) IN
+   LET geo == GeoOf(Rec)  G == GroupOf(Rec.grp)  a == FList(Rec.inp)  b == FList(Rec.out) IN
    [ in_model     |-> Compatible(FineU(geo), G) /\ OldDistinctK(Keys(a, geo, G), Rec.nold),
-     equals_spec  |-> b = ExcludeEquiv(a, Rec.nold, geo, G),
      weight_kept  |-> TotalWeight(a) = TotalWeight(b),
-     lossless     |-> MergeLossless(a, b, geo, G),
-     new_unique   |-> \A p, q \in 1..Len(b) : (p < q /\ q > Rec.nold) => kb[p] # kb[q],
-     old_stay     |-> \A q \in 1..Rec.nold : b[q].c = a[q].c /\ b[q].lev = a[q].lev /\ b[q].fac >= a[q].fac ]
+     same_up_to_symmetry |-> SameClassWeights(a, b, geo, G),
+     no_duplicates |-> NoEquivDup(b, geo, G),
+     info_equals_spec  |-> b = ExcludeEquiv(a, Rec.nold, geo, G),
+     info_old_stay     |-> Len(b) >= Rec.nold /\ \A q \in 1..Rec.nold : b[q].c = a[q].c /\ b[q].lev = a[q].lev /\ b[q].fac >= a[q].fac ]
+(* one refinement step: before = K list, ord = the refined points in the order of the loop, after = K list after the
+   step (run(): the lists at the hook events UpdateIntegral / Refine; or the harness's copy of the loop of run()) *)
+RefineClauses ==
+   LET geo == GeoOf(Rec)  G == GroupOf(Rec.grp)  GE == IF Rec.sym THEN G ELSE {Id3}
+       a == FList(Rec.before)  b == FList(Rec.after)  ord == [q \in 1..Len(Rec.ord) |-> Rec.ord[q]]
+       exp == RefineList(a, ord, geo, G, Rec.sym) IN
+   [ in_model     |-> /\ Compatible(FineU(geo), G) /\ Len(ord) >= 1
+                      /\ \A q \in 1..Len(ord) : ord[q] \in 1..Len(a) /\ Divisible(a[ord[q]], geo)
+                      /\ \A q, r \in 1..Len(ord) : q # r => ord[q] # ord[r]
+                      /\ (Rec.sym => OldDistinctK(Keys(a, geo, G), Len(a))),
+     weight_kept  |-> TotalWeight(b) = TotalWeight(a),
+     nonnegative  |-> \A q \in 1..Len(b) : b[q].fac >= 0,
+     same_up_to_symmetry |-> SameClassWeights(b, exp, geo, GE),
+     no_duplicates |-> Rec.sym => LiveNoDup(b, geo, G),
+     info_equals_spec  |-> b = exp ]
 TSplitClauses ==
    LET t == TetOf(Rec.parent)  ch == TList(Rec.out)  gram == GramOf(Rec.metric)
-       P == TetSamples(Rec.S, Rec.M, Rec.NS, << -(Rec.S \div 2), -(Rec.S \div 2), -(Rec.S \div 2) >>, <<1, 3, 5>>) IN
-   [ in_model     |-> Splittable(t, Rec.ndiv, gram) /\ Vol6(t.v) > 0,
-     equals_spec  |-> ch = SplitLongestEdge(t, Rec.ndiv, gram, Rec.refine),
-     generic      |-> SamplesGeneric(ch, P, Rec.M) /\ SamplesGeneric(<<t>>, P, Rec.M),
-     split_ok     |-> SplitOK(t, ch, P, Rec.M) ]
+       P == TetSamples(Rec.S, Rec.M, Rec.NS, << -(Rec.S \div 2), -(Rec.S \div 2), -(Rec.S \div 2) >>, <<1, 3, 5>>)
+       generic == SamplesGeneric(ch, P, Rec.M) /\ SamplesGeneric(<<t>>, P, Rec.M) IN
+   [ in_model     |-> Vol6(t.v) > 0,
+     split_exact  |-> SplitExact(t, ch),
+     positive     |-> PositiveVolumes(ch),
+     split_tiles  |-> generic => SplitTiles(t, ch, P, Rec.M),
+     info_generic |-> generic,
+     info_equals_spec  |-> Splittable(t, Rec.ndiv, gram) /\ ch = SplitLongestEdge(t, Rec.ndiv, gram, Rec.refine) ]
 TGridClauses ==
-   LET kl == TList(Rec.out)  gram == GramOf(Rec.metric)  P == SamplesOf(Rec.metric, Rec.S, Rec.M, Rec.NS) IN
-   [ equals_spec  |-> kl = GridTetraList(StartListOf(Rec.metric, Rec.S, Rec.WT), Rec.tv2, Rec.ts2, gram),
-     positive     |-> PositiveVolumes(kl),
+   LET kl == TList(Rec.out)  gram == GramOf(Rec.metric)  P == SamplesOf(Rec.metric, Rec.S, Rec.M, Rec.NS)
+       generic == SamplesGeneric(kl, P, Rec.M) IN
+   [ positive     |-> PositiveVolumes(kl),
      volume_kept  |-> SumSeq(TVols(kl)) = CellVol6Of(Rec.metric, Rec.S),
      weight_one   |-> SumSeq(TFacs(kl)) = Rec.WT,
      weight_by_volume |-> WeightPropVolume(kl, Rec.WT),
-     generic      |-> SamplesGeneric(kl, P, Rec.M),
-     tiling       |-> IF Rec.metric = "hex" THEN NoOverlap(kl, P, Rec.M) ELSE TilesCell(kl, P, Rec.M),
-     thresholds   |-> (Rec.tv2 = 0 \/ VolumeDone(kl, Rec.tv2)) /\ (Rec.ts2 = 0 \/ SizeDone(kl, Rec.ts2, gram)) ]
+     tiling       |-> generic => (IF IsTrigonal(Rec.metric) THEN NoOverlap(kl, P, Rec.M) ELSE TilesCell(kl, P, Rec.M)),
+     info_generic |-> generic,
+     info_thresholds |-> (Rec.tv2 = 0 \/ VolumeDone(kl, Rec.tv2)) /\ (Rec.ts2 = 0 \/ SizeDone(kl, Rec.ts2, gram)),
+     info_equals_spec  |-> kl = GridTetraList(StartListOf(Rec.metric, Rec.S, Rec.WT), Rec.tv2, Rec.ts2, gram) ]
 Clauses == CASE Rec.fn = "klist" -> KlistClauses
              [] Rec.fn = "divide" -> DivideClauses
              [] Rec.fn = "exclude" -> ExcludeClauses
+             [] Rec.fn = "refine" -> RefineClauses
              [] Rec.fn = "tsplit" -> TSplitClauses
              [] Rec.fn = "tgrid" -> TGridClauses
 Report == \A c \in DOMAIN Clauses : Clauses[c] \/ PrintT(<<"BAD", i, c>>)
